@@ -305,16 +305,31 @@ func (c *c08) compileAll() {
 	for _, u := range c.units {
 		for l, e := range u.CompErr {
 			fails++
-			c.inconclusive(fmt.Sprintf("compiler failed for %s (%s batch, delimiter %q): %s", l, u.B.Kind, u.Delim, firstLine(e)))
+			// not inconclusive: a target whose generator rejects the legal scope
+			// has no publisher and no subscriber; compare() reports it per tuple
+			c.note(fmt.Sprintf("compiler failed for %s (%s batch %s, delimiter %q): %s", l, u.B.Kind, u.B.Name, u.Delim, firstLine(e)))
 		}
 	}
 	c.run.Set("compiler_failures", fails)
 }
 
+func genName(l string) string {
+	if l == "go" {
+		return "go"
+	}
+	return genFlag[l]
+}
+
 func firstLine(s string) string {
 	s = strings.TrimSpace(s)
 	if i := strings.IndexByte(s, '\n'); i >= 0 {
-		s = s[:i]
+		// keep the beginning of the second line too: the compiler prints
+		// "Failed to generate x.frugal:" and the reason on the next line
+		rest := strings.TrimSpace(s[i+1:])
+		if j := strings.IndexByte(rest, '\n'); j >= 0 {
+			rest = rest[:j]
+		}
+		s = strings.TrimSpace(s[:i]) + " " + rest
 	}
 	if len(s) > 200 {
 		s = s[:200]
@@ -931,6 +946,13 @@ func (c *c08) compare() {
 					identical := true
 					for _, l := range langs {
 						if !u.B.has(l) || sp.SkipLangs[l] {
+							continue
+						}
+						if e, failed := u.CompErr[l]; failed {
+							identical = false
+							errorsPerLang[l]++
+							report(fmt.Sprintf("C08:%s-vs-reference:no-topic", l), "compiler-fails",
+								fmt.Sprintf("%s: the compiler itself fails on the file that holds this scope (-gen %s -delim %q): %s; no publisher or subscriber exists; reference topic %q", l, genName(l), u.Delim, firstLine(e), want))
 							continue
 						}
 						var first *obs
